@@ -30,6 +30,9 @@ pub enum TOp {
     UpgradeStf { u: u8 },
     /// Block boundary: the chain's current versions move to the latest installed ones.
     NextBlock,
+    /// A script's storage write, applied directly: slot `k` of deployed contract `c` becomes
+    /// `[v; 32]` (the live state of a contract moves away from its initial slots).
+    Poke { c: u8, k: u8, v: u8 },
 }
 
 #[derive(Debug, Clone, Serialize, Deserialize, PartialEq)]
@@ -165,7 +168,7 @@ impl Engine for Tables {
         // per-root next index so that in-order uploads are common but not universal
         let mut next_idx = vec![0u8; nu];
         for _ in 0..nsteps {
-            let op = match g.weighted(&[3, 3, 8, 3, 3, 2]) {
+            let op = match g.weighted(&[3, 3, 8, 3, 3, 2, 2]) {
                 0 => TOp::Create { c: g.below(nc as u64) as u8 },
                 1 => TOp::Blob { b: g.below(nb as u64) as u8 },
                 2 => {
@@ -187,7 +190,8 @@ impl Engine for Tables {
                 }
                 3 => TOp::UpgradeParams { v: g.below(4) as u8 },
                 4 => TOp::UpgradeStf { u: if g.chance(1, 6) { 255 } else { g.below(nu as u64) as u8 } },
-                _ => TOp::NextBlock,
+                5 => TOp::NextBlock,
+                _ => TOp::Poke { c: g.below(nc as u64) as u8, k: g.below(4) as u8, v: g.below(256) as u8 },
             };
             let fault_at = if faulty && embedder_rollback && f.chance(1, 5) { Some(f.below(6) as u8) } else { None };
             steps.push(TStep { op, generic_path: g.bool(), fault_at });
@@ -341,6 +345,29 @@ impl Engine for Tables {
                         vec![],
                         vec![Witness::default()],
                     ))
+                }
+                TOp::Poke { c, k, v } => {
+                    let (len, tag, salt, nslots) = sc.contracts[*c as usize % sc.contracts.len()];
+                    let code = bytes_of(len, tag, 0xC0DE);
+                    let mut slots: Vec<StorageSlot> = (0..nslots)
+                        .map(|k| StorageSlot::new(Bytes32::new([k + 1; 32]), Bytes32::new([tag ^ 0x55; 32])))
+                        .collect();
+                    slots.sort();
+                    let id = Contract::id(&Salt::new([salt; 32]), &Contract::root_from_code(&code), &Contract::initial_state_root(slots.iter()));
+                    let idb: [u8; 32] = id.into();
+                    if let Some((_, live)) = model.contracts.get_mut(&idb) {
+                        let key = [*k + 1; 32];
+                        let val = [*v; 32];
+                        if fuel_vm::storage::InterpreterStorage::contract_state_insert(&mut storage, &id, &Bytes32::new(key), &val).is_ok() {
+                            match live.iter_mut().find(|(kk, _)| *kk == key) {
+                                Some(e) => e.1 = val,
+                                None => live.push((key, val)),
+                            }
+                            storage.inner.commit();
+                            ctx.stats.inc("probe.live_contract_state_changed");
+                        }
+                    }
+                    continue;
                 }
                 TOp::NextBlock => {
                     model.cur_cp = model.cp_versions.keys().max().copied().unwrap_or(0).max(model.cur_cp);
